@@ -408,7 +408,7 @@ def run_shard(shard, rep, only=None):
                 continue
             run_refused_copy_case(tun, k, shard["seed"] * 100003 + 90000 + j * 37 + rp, rep, case)
     # the application sends the same Message object again while the exchange of its earlier use is still open
-    ru_cases = [(tun, why, when, bw) for tun in TUNINGS[:3] + TUNINGS_SAMPLED[:1] for why in ("given-up", "answered-separately") for when in ("before-first-retx", "after-first-retx") for bw in (False, True)]
+    ru_cases = [(tun, why, when, bw) for tun in TUNINGS[:3] + TUNINGS_SAMPLED[:1] for why in ("given-up", "answered-separately", "twice-at-once") for when in ("before-first-retx", "after-first-retx") for bw in (False, True) if not (why == "twice-at-once" and when == "after-first-retx")]
     for j, (tun, why, when, bw) in enumerate(ru_cases):
         if j % of != idx:
             continue
@@ -471,7 +471,11 @@ def run_reuse_case(tun, why, when, blockwise, seed, rep, case):
         wait = at * 0.5 if when == "before-first-retx" else at * arf * 1.5
         r1 = cli.request(msg, handle_blockwise=blockwise)
         out = {}
-        if why == "given-up":
+        if why == "twice-at-once":
+            # (asyncio.gather(ctx.request(msg).response, ctx.request(msg).response): the object is handed in a second
+            # time before the first use has even been stamped with a message ID)
+            out["first"] = "pending"
+        elif why == "given-up":
             try:
                 await asyncio.wait_for(r1.response, wait)
                 out["first"] = "response"
@@ -490,7 +494,7 @@ def run_reuse_case(tun, why, when, blockwise, seed, rep, case):
         r2 = cli.request(msg, handle_blockwise=blockwise)
         r3 = cli.request(aiocoap.Message(code=aiocoap.GET, uri="coap://10.0.0.1/other", transport_tuning=mk_tuning(at, arf, mr)), handle_blockwise=blockwise)
         done = {}
-        for name, r_ in (("second", r2), ("fresh", r3)):
+        for name, r_ in (("second", r2), ("fresh", r3)) + ((("first", r1),) if why == "twice-at-once" else ()):
             r_.response.add_done_callback(lambda f, name=name: done.setdefault(name, (loop.time(), "cancelled" if f.cancelled() else f.exception() or "response")))
         await asyncio.sleep(3 * mtw + 10)
         mm = cli.request_interfaces[0].token_interface
@@ -508,7 +512,7 @@ def run_reuse_case(tun, why, when, blockwise, seed, rep, case):
     net = obs["net"]
     log = [e for e in net.log if e.kind == "send" and e.dst == S and e.msg is not None and rc.is_request(e.msg.code)]
     w = lambda **kw: dict(tuning=tun, why=why, when=when, blockwise=blockwise, first=obs["out"].get("first"), done={k: (round(v[0], 6), repr(v[1])) for k, v in obs["done"].items()}, wire=[(round(e.t, 6), e.msg.mid, e.msg.token.hex(), rc.opt1(e.msg, 11)) for e in log], **kw)
-    if obs["out"].get("first") != ("given-up" if why == "given-up" else "response"):
+    if obs["out"].get("first") != {"given-up": "given-up", "twice-at-once": "pending"}.get(why, "response"):
         # (with MAX_RETRANSMIT 0 the first use times out by itself before the application gives up: not this scenario)
         rep.count("reuse_case_first_use_ended_by_itself")
         return
@@ -524,10 +528,10 @@ def run_reuse_case(tun, why, when, blockwise, seed, rep, case):
         if len(es) > 1 + mr:
             rep.violation("message-reuse/too-many-copies", "more than 1+MAX_RETRANSMIT copies of one message", w(mid=mid), case)
             return
-    for name in ("second", "fresh"):
+    for name in ("second", "fresh") + (("first",) if why == "twice-at-once" else ()):
         d = obs["done"].get(name)
         if d is None:
-            rep.violation("message-reuse/%s-request-hangs" % name, "%s neither completed nor failed within three times MAX_TRANSMIT_WAIT" % ("the second use of the Message object" if name == "second" else "an unrelated fresh request to the same peer, submitted after the second use,"), w(), case)
+            rep.violation("message-reuse/%s-request-hangs" % name, "%s neither completed nor failed within three times MAX_TRANSMIT_WAIT" % ({"second": "the second use of the Message object", "first": "the first use of a Message object that was handed in twice in a row"}.get(name, "an unrelated fresh request to the same peer, submitted after the second use,")), w(), case)
             return
         if d[1] != "response" and not isinstance(d[1], error.NetworkError):
             rep.violation("message-reuse/%s-request-wrong-error" % name, "the request ended with something other than a response or a network error", w(), case)
